@@ -5,14 +5,16 @@
    struct.error / AssertionError / ValueError / NotImplementedError (the latter since /repo fix
    ed7f7ab, which this proof found: _maybe_start_digest in multi-envelope mode). *)
 From DV Require Import Base.Prelude Model.NameM.
-From DV Require Model.TsigM Proofs.NameWire Proofs.ParserSafe Proofs.UntrustedSchema.
+From DV Require Model.TsigM Proofs.NameWire Proofs.ParserSafe Proofs.UntrustedSchema Proofs.UntrustedText.
 Import TsigM.
 Open Scope Z_scope.
 
 Definition tlib (e : Z) : Prop :=
   is_formerror e = true \/ e = eBadTime \/ e = eBadSignature \/ e = eBadKey \/ e = eBadAlgorithm
   \/ e = ePeerError \/ e = ePeerBadKey \/ e = ePeerBadSignature \/ e = ePeerBadTime \/ e = ePeerBadTruncation
-  \/ e = eUnknownTSIGKey \/ e = eNeedAbsolute \/ e = eUnsupported.
+  \/ e = eUnknownTSIGKey \/ e = eNeedAbsolute \/ e = eUnsupported
+  (* from Name.relativize(origin) of an owner name (dns.name errors; unreachable for names read from the wire) *)
+  \/ e = NameM.eLabelTooLong \/ e = NameM.eEmptyLabel.
 
 Ltac tl := first [ reflexivity | left; reflexivity | right; tl ].
 
@@ -254,7 +256,14 @@ Section Reader.
   Lemma get_rr_out section count i st : G (get_rr H w kr rmac now multi section count i st).
   Proof.
     unfold get_rr.
-    apply g_bind; [apply fe_g, fe_get_name; exact Hw|]. intros np _.
+    apply g_bind; [apply fe_g, fe_get_name; exact Hw|]. intros np _. cbv zeta.
+    apply g_bind.
+    { destruct (r_origin st) as [o|]; [|exact Logic.I]. unfold NameM.relativize.
+      destruct (is_subdomain (fst np) o); [|exact Logic.I].
+      pose proof (UntrustedText.mk_name_family (drop_last (length o) (fst np))) as M.
+      destruct (mk_name (drop_last (length o) (fst np))) as [n|e|e]; [exact Logic.I| |contradiction].
+      destruct M as [-> | [-> | ->]]; cbn; tl. }
+    intros nrel _.
     apply g_bind; [apply fe_g, fe_get_uint|]. intros tp _.
     apply g_bind; [apply fe_g, fe_get_uint|]. intros cp _.
     apply g_bind; [apply fe_g, fe_get_uint|]. intros lp _.
@@ -288,9 +297,9 @@ Section Reader.
   Qed.
 
   (* dns.message.from_wire(wire, keyring, request_mac, tsig_ctx, multi) on a signed message *)
-  Theorem signed_message_outcome ctx : G (read H w kr rmac ctx multi now).
+  Theorem signed_message_outcome origin ctx : G (read_gen H origin w kr rmac ctx multi now).
   Proof.
-    unfold read. replace (Nat.ltb (length w) 12) with false by (symmetry; apply Nat.ltb_ge; exact Hlen).
+    unfold read_gen. replace (Nat.ltb (length w) 12) with false by (symmetry; apply Nat.ltb_ge; exact Hlen).
     apply g_bind; [apply fe_g, fe_get_uint|]. intros fl _.
     apply g_bind; [apply fe_g, fe_get_uint|]. intros qd _.
     apply g_bind; [apply fe_g, fe_get_uint|]. intros an _.
@@ -306,16 +315,16 @@ Section Reader.
 End Reader.
 
 (* without the length hypothesis: a short message is ShortHeader *)
-Theorem signed_message_family H w kr rmac ctx multi now :
+Theorem signed_message_family H origin w kr rmac ctx multi now :
   ParserSafe.bytes_ok w -> zlen rmac <= 65535 ->
-  match read H w kr rmac ctx multi now with
+  match read_gen H origin w kr rmac ctx multi now with
   | Ok _ => True
   | Lib e => tlib e
   | Internal _ => False
   end.
 Proof.
   intros Hw Hr. destruct (Nat.ltb (length w) 12) eqn:E.
-  - unfold read. rewrite E. cbn. tl.
+  - unfold read_gen. rewrite E. cbn. tl.
   - apply Nat.ltb_ge in E. apply signed_message_outcome; assumption.
 Qed.
 
